@@ -120,7 +120,7 @@ type nativeBatch struct {
 	runS     float64
 }
 
-var pkgErrRe = regexp.MustCompile(`(?m)^(?:\./)?(p\d+)/[a-z]+\.go:\d+`)
+var pkgErrRe = regexp.MustCompile(`(?m)^(?:\./)?([pd]\d+)/(?:\w+/)?\w+\.go:\d+`)
 
 // runNative builds and runs the batch; programs that do not build are dropped
 // (reported by the caller as generator errors) and the build is retried.
@@ -129,7 +129,7 @@ func runNative(dir string, progs []*program) (*nativeBatch, error) {
 	if err := os.MkdirAll(dir, 0o755); err != nil {
 		return nil, err
 	}
-	mod := "module c14\n\ngo 1.23\n\nrequire github.com/nspcc-dev/neo-go v0.0.0\n\nreplace github.com/nspcc-dev/neo-go => ./neogo\n"
+	mod := "module " + modPath + "\n\ngo 1.23\n\nrequire github.com/nspcc-dev/neo-go v0.0.0\n\nreplace github.com/nspcc-dev/neo-go => ./neogo\n"
 	if err := os.WriteFile(filepath.Join(dir, "go.mod"), []byte(mod), 0o644); err != nil {
 		return nil, err
 	}
@@ -160,11 +160,29 @@ func runNative(dir string, progs []*program) (*nativeBatch, error) {
 		if err := os.MkdirAll(d, 0o755); err != nil {
 			return nil, err
 		}
-		if err := os.WriteFile(filepath.Join(d, "prog.go"), []byte(p.src), 0o644); err != nil {
+		for _, f := range p.fileList() {
+			if err := os.WriteFile(filepath.Join(d, f.Name), []byte(f.Text), 0o644); err != nil {
+				return nil, err
+			}
+		}
+		if err := os.WriteFile(filepath.Join(d, nativeResetFile), []byte(p.reset), 0o644); err != nil {
 			return nil, err
 		}
-		if err := os.WriteFile(filepath.Join(d, "reset.go"), []byte(p.reset), 0o644); err != nil {
-			return nil, err
+		if p.reset2 != "" {
+			if err := os.WriteFile(filepath.Join(d, "zz_native_reset2.go"), []byte(p.reset2), 0o644); err != nil {
+				return nil, err
+			}
+		}
+		if p.aux != nil {
+			ad := filepath.Join(d, p.aux.name)
+			if err := os.MkdirAll(ad, 0o755); err != nil {
+				return nil, err
+			}
+			for _, f := range append([]srcFile{{Name: nativeResetFile, Text: p.aux.native}}, p.aux.files...) {
+				if err := os.WriteFile(filepath.Join(ad, f.Name), []byte(f.Text), 0o644); err != nil {
+					return nil, err
+				}
+			}
 		}
 	}
 	env := []string{"GOFLAGS=-mod=mod", "GOPROXY=off", "GOWORK=off", "GOTOOLCHAIN=local"}
@@ -182,20 +200,28 @@ func runNative(dir string, progs []*program) (*nativeBatch, error) {
 	for attempt := 0; ; attempt++ {
 		var imports, body strings.Builder
 		for _, p := range live {
-			fmt.Fprintf(&imports, "\t%s \"c14/%s\"\n", p.pkg, p.pkg)
+			fmt.Fprintf(&imports, "\t%s \"%s/%s\"\n", p.pkg, modPath, p.pkg)
+			resetFn := "ResetGlobals"
+			if p.resetFn != "" {
+				resetFn = p.resetFn
+			}
 			for ci, c := range p.calls {
 				if ci > 0 {
-					fmt.Fprintf(&body, "\t%s.ResetGlobals()\n", p.pkg)
+					fmt.Fprintf(&body, "\t%s.%s()\n", p.pkg, resetFn)
 				}
 				var as []string
 				for _, a := range c.Args {
 					as = append(as, goLit(a))
 				}
+				pre := ""
+				if c.Pre != "" {
+					pre = fmt.Sprintf("%s.RunDeploy(%v); ", p.pkg, c.Pre == "update")
+				}
 				if p.fn(c.Fn).ret0() == tVoid {
-					fmt.Fprintf(&body, "\trun(w, %d, %d, func() any { %s.%s(%s); return nil })\n", p.idx, ci, p.pkg, c.Fn, strings.Join(as, ", "))
+					fmt.Fprintf(&body, "\trun(w, %d, %d, func() any { %s%s.%s(%s); return nil })\n", p.idx, ci, pre, p.pkg, c.Fn, strings.Join(as, ", "))
 					continue
 				}
-				fmt.Fprintf(&body, "\trun(w, %d, %d, func() any { return %s.%s(%s) })\n", p.idx, ci, p.pkg, c.Fn, strings.Join(as, ", "))
+				fmt.Fprintf(&body, "\trun(w, %d, %d, func() any { %sreturn %s.%s(%s) })\n", p.idx, ci, pre, p.pkg, c.Fn, strings.Join(as, ", "))
 			}
 		}
 		if err := os.WriteFile(filepath.Join(dir, "main.go"), []byte(fmt.Sprintf(nativeMainHead, imports.String(), body.String())), 0o644); err != nil {
